@@ -4,10 +4,11 @@ import PyaModel.Spec.OpsSpec
 /-!
 # Spec/MiniSem — CPython's behaviour on the MiniPy fragment (the specification side of C01)
 
-A big-step evaluator over `Obj`. The fragment has no loops, so the semantics is a total function; an
-evaluation that raises (`IndexError`, unbound name, subscript of a non-sequence) yields `none` and the
-values recorded before the exception stay in the log. `log` lists `(node path, runtime value)` for every
-expression node that was evaluated, with the node paths of `Core/MiniPy.lean`.
+A big-step evaluator over `Obj`. Every loop of the fragment is a `for` over a finite object, so the semantics is a
+total function (`forLoop` recurses on the list of elements); an evaluation that raises (`IndexError`, unbound name,
+subscript of a non-sequence, wrong number of values to unpack, unsupported `+`) yields `none` and the values recorded
+before the exception stay in the log. `log` lists `(node path, runtime value)` for every expression node that was
+evaluated, with the node paths of `Core/MiniPy.lean`. The helper functions a program calls are a parameter (`Impl`).
 Validated against CPython on every run (stream `eval` of harness/props/c01.py).
 -/
 namespace Pya.C01
